@@ -72,6 +72,10 @@ pub struct Probes {
     pub destroys: u64,
     pub roundtrip_values: u64,
     pub relisted_through_child_mut: u64,
+    pub steals: u64,
+    pub steal_refused: u64,
+    pub abuse_shared: u64,
+    pub escapes: u64,
 }
 
 pub struct Runner<'a> {
@@ -115,6 +119,8 @@ struct St<'r, 'a> {
     in_unwind: bool,
     /// an injected user panic was thrown in the current step
     panic_thrown: bool,
+    /// member guards moved out of a collection guard (BodyOp::StealHolds), kept past its release
+    stolen: Vec<Box<dyn crate::caps::Opaque>>,
 }
 
 struct ClosureScope<'s>(&'s Sched);
@@ -350,11 +356,13 @@ impl<'r, 'a> St<'r, 'a> {
 
     fn body(&mut self, kh: &KeyProbeCell, h: &mut dyn Held, ctx: &Ctx) {
         let s = self.s();
+        // the guard has been emptied by StealHolds: nothing can be reached through it any more
+        let mut emptied = false;
         for (j, op) in ctx.acq.body.iter().enumerate() {
             self.opseq += 1;
             match op {
                 BodyOp::Read(i) | BodyOp::Write(i) => {
-                    if *i >= ctx.flat.len() {
+                    if *i >= ctx.flat.len() || emptied {
                         continue;
                     }
                     let fl = &ctx.flat[*i];
@@ -404,6 +412,71 @@ impl<'r, 'a> St<'r, 'a> {
                 BodyOp::GateWait(g) => s.gate_wait(*g),
                 BodyOp::WaitBlocked(t, l) => s.wait_blocked(*t, *l),
                 BodyOp::NonAcq(op, t) => self.nonacq(*op, *t),
+                BodyOp::StealHolds => {
+                    if ctx.acq.api.is_scoped() {
+                        continue;
+                    }
+                    match h.steal() {
+                        Some(b) => {
+                            emptied = true;
+                            self.probe(|p| p.steals += 1);
+                            // the stolen guards borrow the target, which outlives this step; they
+                            // are dropped right after the guard they came from has been released
+                            let b: Box<dyn crate::caps::Opaque + 'static> = unsafe { std::mem::transmute::<Box<dyn crate::caps::Opaque + '_>, Box<dyn crate::caps::Opaque + 'static>>(b) };
+                            self.stolen.push(b);
+                        }
+                        None => self.probe(|p| p.steal_refused += 1),
+                    }
+                }
+                BodyOp::AbuseShared(i) => {
+                    if *i >= ctx.flat.len() || emptied {
+                        continue;
+                    }
+                    let fl = &ctx.flat[*i];
+                    let mut layers = Vec::new();
+                    crate::caps::ABUSE.with(|a| a.set(true));
+                    let pr = h.visit(&fl.path, &mut layers);
+                    crate::caps::ABUSE.with(|a| a.set(false));
+                    self.probe(|p| p.abuse_shared += 1);
+                    match pr {
+                        PayRef::Mut(p) => {
+                            let v = ((self.tid as u64 + 1) << 40) | ((self.step as u64) << 24) | ((j as u64 + 1) << 8) | (self.opseq & 0xff);
+                            p.write(v);
+                        }
+                        PayRef::Shared(p) => {
+                            p.read();
+                        }
+                    }
+                }
+                // performed by the caller of the scoped call once it has returned
+                BodyOp::EscapeData(_) => {}
+            }
+        }
+    }
+
+    /// the data a scoped closure handed back to its caller is used after the call
+    fn use_escaped(&mut self, h: &mut dyn Held, ctx: &Ctx, receiver: &str) {
+        for (j, op) in ctx.acq.body.iter().enumerate() {
+            if let BodyOp::EscapeData(i) = op {
+                if *i >= ctx.flat.len() {
+                    continue;
+                }
+                self.probe(|p| p.escapes += 1);
+                let fl = &ctx.flat[*i];
+                let mut layers = Vec::new();
+                let pr = h.visit(&fl.path, &mut layers);
+                crate::pay::ESCAPED_USE.with(|e| e.set(true));
+                crate::pay::ESCAPED_RECEIVER.with(|r| *r.borrow_mut() = format!("{:?} of {}", ctx.acq.api, receiver));
+                match pr {
+                    PayRef::Mut(p) => {
+                        let v = ((self.tid as u64 + 1) << 40) | ((self.step as u64) << 24) | ((j as u64 + 1) << 8) | 0xEE;
+                        p.write(v);
+                    }
+                    PayRef::Shared(p) => {
+                        p.read();
+                    }
+                }
+                crate::pay::ESCAPED_USE.with(|e| e.set(false));
             }
         }
     }
@@ -755,6 +828,15 @@ impl<'r, 'a> Th<'r, 'a> {
         s.api_begin(kind, ctx.retry);
         // Ok(()) = closure ran; Err(()) = try failed
         let outcome: Result<(), ()>;
+        let escape = T::ESCAPABLE && ctx.acq.body.iter().any(|b| matches!(b, BodyOp::EscapeData(_)));
+        let mut escaped: Option<Box<dyn Held + '_>> = None;
+        macro_rules! keep {
+            ($r:expr) => {
+                if let Some(d) = $r {
+                    escaped = Some(Box::new(d));
+                }
+            };
+        }
         if ctx.acq.lent_key {
             // the key stays in the holder (it must survive an unwind of the call)
             self.kh.key = Some(key);
@@ -768,20 +850,38 @@ impl<'r, 'a> Th<'r, 'a> {
                         let _scope = ClosureScope(st.s());
                         st.at_closure_entry(ctx);
                         st.body(cell, &mut d, ctx);
+                        // the closure may hand what it was given back to its caller
+                        if escape {
+                            Some(d)
+                        } else {
+                            None
+                        }
                     }
                 };
             }
             outcome = match api {
                 Api::ScopedLock => {
-                    t.scoped_lock(k, clo!());
+                    keep!(t.scoped_lock(k, clo!()));
                     Ok(())
                 }
-                Api::ScopedTryLock => t.scoped_try_lock(k, clo!()).map_err(|_| ()),
+                Api::ScopedTryLock => match t.scoped_try_lock(k, clo!()) {
+                    Ok(r) => {
+                        keep!(r);
+                        Ok(())
+                    }
+                    Err(_) => Err(()),
+                },
                 Api::ScopedRead => {
-                    t.scoped_read(k, clo!());
+                    keep!(t.scoped_read(k, clo!()));
                     Ok(())
                 }
-                _ => t.scoped_try_read(k, clo!()).map_err(|_| ()),
+                _ => match t.scoped_try_read(k, clo!()) {
+                    Ok(r) => {
+                        keep!(r);
+                        Ok(())
+                    }
+                    Err(_) => Err(()),
+                },
             };
         } else {
             macro_rules! clo {
@@ -793,17 +893,24 @@ impl<'r, 'a> Th<'r, 'a> {
                         let _scope = ClosureScope(st.s());
                         st.at_closure_entry(ctx);
                         st.body(cell, &mut d, ctx);
+                        // the closure may hand what it was given back to its caller
+                        if escape {
+                            Some(d)
+                        } else {
+                            None
+                        }
                     }
                 };
             }
             outcome = match api {
                 Api::ScopedLock => {
-                    t.scoped_lock(key, clo!());
+                    keep!(t.scoped_lock(key, clo!()));
                     self.kh.alive = false;
                     Ok(())
                 }
                 Api::ScopedTryLock => match t.scoped_try_lock(key, clo!()) {
-                    Ok(()) => {
+                    Ok(r) => {
+                        keep!(r);
                         self.kh.alive = false;
                         Ok(())
                     }
@@ -813,12 +920,13 @@ impl<'r, 'a> Th<'r, 'a> {
                     }
                 },
                 Api::ScopedRead => {
-                    t.scoped_read(key, clo!());
+                    keep!(t.scoped_read(key, clo!()));
                     self.kh.alive = false;
                     Ok(())
                 }
                 _ => match t.scoped_try_read(key, clo!()) {
-                    Ok(()) => {
+                    Ok(r) => {
+                        keep!(r);
                         self.kh.alive = false;
                         Ok(())
                     }
@@ -849,6 +957,9 @@ impl<'r, 'a> Th<'r, 'a> {
                 }
                 self.st.after_try_fail(ctx, &rec);
             }
+        }
+        if let Some(mut e) = escaped {
+            self.st.use_escaped(&mut *e, ctx, std::any::type_name::<T>());
         }
     }
 
@@ -903,8 +1014,14 @@ impl<'r, 'a> Th<'r, 'a> {
         if ctx.acq.release != Release::Forget {
             let held = s.held();
             if !held.is_empty() {
-                s.report(Clause::KeyBackWhileHolding, format!("guard of {:?} on target {} was released ({:?}) but the caller still holds {:?}", ctx.acq.api, ctx.acq.target, ctx.acq.release, held));
+                let how = if self.st.stolen.is_empty() { "" } else { " (the member guards had been moved out of it with mem::take)" };
+                s.report(Clause::KeyBackWhileHolding, format!("guard of {:?} on target {} was released ({:?}){} but the caller still holds {:?}", ctx.acq.api, ctx.acq.target, ctx.acq.release, how, held));
             }
+        }
+        if !self.st.stolen.is_empty() {
+            s.api_begin(ApiKind::Release, false);
+            self.st.stolen.clear();
+            let _ = s.api_end();
         }
     }
 
@@ -944,6 +1061,14 @@ impl<'r, 'a> Th<'r, 'a> {
             Node::MRetry(c) => self.run_api(&**c, ctx),
             Node::MOwned(_) => self.st.s().report(Clause::Harness, "owned collection over &mut & members cannot be locked through the checked API".into()),
             Node::MRef(h) => self.run_api(h.get(), ctx),
+            Node::Slice(n) => match n {
+                SNode::BoxedV(c) => self.run_api(c, ctx),
+                SNode::BoxedB(c) => self.run_api(c, ctx),
+                SNode::RetryV(c) => self.run_api(&**c, ctx),
+                SNode::RefB(h) => self.run_api(h.get(), ctx),
+                SNode::PBoxedV(c) => self.run_api(&**c, ctx),
+                SNode::PRetryB(c) => self.run_api(&**c, ctx),
+            },
             Node::Group(_) | Node::Group0 => self.st.s().report(Clause::Harness, "a bare container was generated as a top-level target".into()),
         }
     }
@@ -1772,7 +1897,7 @@ pub fn run_scenario(scn: &Scenario) -> RunResult {
                     r.sched.thread_start(tid);
                     let res = catch_unwind(AssertUnwindSafe(|| {
                         let mut th = Th {
-                            st: St { r, tid, step: 0, opseq: 0, snap: Vec::new(), private_poison: BTreeMap::new(), in_unwind: false, panic_thrown: false },
+                            st: St { r, tid, step: 0, opseq: 0, snap: Vec::new(), private_poison: BTreeMap::new(), in_unwind: false, panic_thrown: false, stolen: Vec::new() },
                             kh: KeyHolder { key: None, alive: false, leaked: false, extra: Vec::new() },
                             cell: KeyProbeCell { extra: RefCell::new(Vec::new()) },
                         };
